@@ -47,7 +47,7 @@ def cases(draw, tier):
     t = draw(S.thresholds(c['pts'], metric, candidates=cands or None))
     ts = draw(st.lists(S.thresholds(c['pts'], 'smape'), min_size=1, max_size=4))
     return {'family': c['family'], 'pts': c['pts'], 'metric': metric, 'distance': distance, 'order': order,
-            't': t, 'min_points': draw(st.integers(0, n + 3)), 'ts': ts, 'default_ts': draw(st.integers(0, 2)) == 0}
+            't': t, 'min_points': draw(st.integers(0, n + 3)), 'ts': ts, 'default_ts': draw(st.integers(0, 2)) == 0, 'np_int': draw(st.booleans())}
 
 
 def oracle(case, rec):
@@ -100,7 +100,8 @@ def oracle(case, rec):
             if g == want:
                 removed_ok(g, rem, 'grdp')
     m = case['min_points']
-    out = rec.call(4 * n + 16, L.rdp.mp_grdp, p, t, m, Dn, M, On, _site='rdp.mp_grdp')
+    marg = np.int64(m) if case.get('np_int') else m
+    out = rec.call(4 * n + 16, L.rdp.mp_grdp, p, t, marg, Dn, M, On, _site='rdp.mp_grdp')
     target = max(kk, min(m, n), 2)
     if out is not FAILED:
         g, rem = as_list(out, 'mp_grdp')
